@@ -21,7 +21,7 @@ SCRATCH = "/var/tmp/wencry-matrix"
 
 
 def sh(*a, **k):
-    return subprocess.run(a, stdout=subprocess.PIPE, stderr=subprocess.STDOUT, text=True, **k)
+    return subprocess.run(a, stdout=subprocess.PIPE, stderr=subprocess.STDOUT, text=True, errors="replace", **k)
 
 
 def main():
